@@ -37,4 +37,6 @@ def all_units():
         units_conv.register(add)
         import units_rand
         units_rand.register(add)
+        import units_ct
+        units_ct.register(add)
     return list(_units)
